@@ -327,6 +327,100 @@ pub fn eval(op: &str, input: &mut Value) -> OpResult {
       }
       Ok(out)
     }
+    // several inline-object sites of one generated document (C16, site dimension): for every site path the struct
+    // it resolves to in THIS run, the validators of its members, and whether the holder's member carries `nested`
+    "valid.sites" => {
+      input["rx"] = rx_tables(&input["desc"], &input["vals"]);
+      let (files, _stats) = match k_gen::generate(input) {
+        Ok(x) => x,
+        Err(e) => return Ok(json!({"err": e})),
+      };
+      let types = files.get("types").ok_or("no types file")?;
+      let tf = facts::file_facts(types);
+      if let Some(e) = tf.get("parse_error") {
+        return Ok(json!({"err": format!("emitted types file does not parse: {e}")}));
+      }
+      let mut statics = BTreeMap::new();
+      if let Ok(file) = syn::parse_file(types) {
+        for it in &file.items {
+          if let syn::Item::Static(st) = it {
+            if let Some(p) = first_str_lit(st.expr.to_token_stream()) {
+              statics.insert(st.ident.to_string(), p);
+            }
+          }
+        }
+      }
+      let structs: BTreeMap<String, &Value> = tf["items"]
+        .as_array()
+        .into_iter()
+        .flatten()
+        .filter(|it| it["kind"] == "struct")
+        .map(|it| (it["name"].as_str().unwrap_or("").to_string(), it))
+        .collect();
+      fn base_of(ty: &str) -> &str {
+        let mut t = ty;
+        loop {
+          match ["Option<", "Vec<", "Box<"].iter().find_map(|p| t.strip_prefix(p).and_then(|r| r.strip_suffix('>'))) {
+            Some(r) => t = r,
+            None => return t,
+          }
+        }
+      }
+      let field_attrs = |f: &Value| -> Vec<Value> {
+        let mut attrs = vec![];
+        for a in f["attrs"].as_array().into_iter().flatten() {
+          let a = a.as_str().unwrap_or("");
+          if a.starts_with("validate(") {
+            attrs.extend(parse_validate(a, Some(&statics)));
+          }
+        }
+        attrs
+      };
+      let mut sites = vec![];
+      'site: for s in input["sites"].as_array().into_iter().flatten() {
+        let at: Vec<&str> = s["at"].as_array().into_iter().flatten().filter_map(Value::as_str).collect();
+        let Some(mut cur) = at.first().and_then(|n| structs.get(*n)).copied() else {
+          sites.push(json!({"err": format!("struct {:?} not emitted", at.first())}));
+          continue;
+        };
+        let mut holder_attrs: Vec<Value> = vec![];
+        for seg in &at[1..] {
+          let Some(f) = cur["fields"].as_array().into_iter().flatten().find(|f| f["name"] == *seg) else {
+            sites.push(json!({"err": format!("field {seg} not emitted in {}", cur["name"])}));
+            continue 'site;
+          };
+          holder_attrs = field_attrs(f);
+          let ty = f["ty"].as_str().unwrap_or("");
+          let Some(next) = structs.get(base_of(ty)).copied() else {
+            sites.push(json!({"err": format!("type {ty} of {}.{seg} is not an emitted struct", cur["name"])}));
+            continue 'site;
+          };
+          cur = next;
+        }
+        let mut members = Map::new();
+        let mut tys = Map::new();
+        let mut any = false;
+        for f in cur["fields"].as_array().into_iter().flatten() {
+          let attrs = field_attrs(f);
+          any |= !attrs.is_empty();
+          members.insert(f["name"].as_str().unwrap_or("").to_string(), Value::Array(attrs));
+          tys.insert(f["name"].as_str().unwrap_or("").to_string(), f["ty"].clone());
+        }
+        let derives_validate = cur["derives"].as_array().is_some_and(|d| d.iter().any(|x| x == "validator::Validate" || x == "Validate"));
+        sites.push(json!({
+          "struct": cur["name"],
+          "members": members,
+          "types": tys,
+          "derive_ok": !any || derives_validate,
+          "holder_nested": holder_attrs.iter().any(|a| a["k"] == "nested"),
+        }));
+      }
+      let mut out = json!({"sites": sites});
+      if input["want"].as_array().is_some_and(|a| a.iter().any(|x| x == "code")) {
+        out["code"] = json!({"types": types});
+      }
+      Ok(out)
+    }
     _ => Err(format!("unknown-op:{op}")),
   }
 }
